@@ -137,37 +137,48 @@ def best_of_two(rep, F):
         rep.bad("R12.2", "best_of_two", problems[0], where=fn.loc())
     else:
         rep.ok("R12.2", "best_of_two[%d rows]" % len(table))
-    # closest_of
+    # closest_of on three candidates (exact unrolling, any loop / fold / try_fold form): B_0 = Indeterminate, B_k = best_of_two(closest_point(item_k), B_{k-1});
+    # the result is B_k for the first k at which B_k is an Intersection, otherwise B_3
     try:
         fn = F.one(r"^geo::algorithm::closest_point::closest_of$", crates=("geo",))
-        ps = opaque(F, loop_bound=1).run(fn)
-        okk = True
-        early = False
+        K = 3
+        items = ("&", ("array", tuple(("index", ("arg", 1), ("const", k)) for k in range(K))))
+        ex = Symex(F, inline_crates=("geo", "geo_types"), no_inline=[r"best_of_two$", r"ClosestPoint.*::closest_point$"], loop_bound=K + 4, concrete_iters=True)
+        ps = ex.run(fn, args=[items, ("arg", 2)])
+        B = ["Closest::Indeterminate()"]
+        for k in range(K):
+            B.append("best_of_two(closest_point(a1[%d], a2), %s, a2)" % (k, B[-1]))
+        inter = names.index("Intersection")
+        bad = None
+        seen_early = False
         for p in ps:
             if p.kind != "ret":
-                continue
-            cs = calls_of(p)
-            bests = [c for c in cs if c[1].endswith("::best_of_two")]
-            nexts = [v for t, v in p.pc if t[0] == "discr" and isinstance(t[1], tuple) and t[1][0] == "call" and t[1][1].endswith("::next")]
-            if not bests:
-                if bare(p.ret) != "Closest::Indeterminate()":
-                    okk = False
-                continue
-            first = bare(("call", bests[0][1], bests[0][2]))
-            if not re.match(r"^best_of_two\(closest_point\(.*\), Closest::Indeterminate\(\), a2\)$", first):
-                okk = False
-            if nexts and nexts[-1] == 1:
-                # left the loop while the iterator still yielded: only allowed on Intersection
-                dd = [(bare(t), v) for t, v in p.pc if t[0] == "discr" and "best_of_two" in bare(t)]
-                names_ = names
-                if dd and isinstance(dd[-1][1], int) and names_[dd[-1][1]] == "Intersection":
-                    early = True
-                else:
-                    okk = False
-        if okk and early:
-            rep.ok("R12.2", "closest_of")
+                bad = "a %s path" % p.kind
+                break
+            r = bare(p.ret)
+            dd = {}
+            for t, v in p.pc:
+                b = bare(t)
+                m_ = re.match(r"^discr\((best_of_two\(.*\))\)$", b)
+                if not m_ or m_.group(1) not in B:
+                    bad = "closest_of decides on `%s`, which is not whether the best so far is an Intersection" % b[:120]
+                    break
+                dd[B.index(m_.group(1))] = (v == inter) if isinstance(v, int) else False
+            if bad:
+                break
+            first_int = min([k for k, is_i in dd.items() if is_i], default=None)
+            want = B[first_int] if first_int is not None else B[K]
+            if first_int is not None and first_int < K:
+                seen_early = True
+            if r != want:
+                bad = "with the best-so-far being an Intersection first after candidate %s the result is %s, expected %s" % (first_int, r[:100], want[:100])
+                break
+        if bad is None and not seen_early:
+            bad = "no early exit on Intersection"
+        if bad:
+            rep.bad("R12.2", "closest_of", "closest_of over three candidates: %s (it must fold best_of_two from Indeterminate in order and stop exactly at the first Intersection)" % bad, where=fn.loc())
         else:
-            rep.bad("R12.2", "closest_of", "closest_of is not a fold from Indeterminate with early exit exactly on Intersection", where=fn.loc())
+            rep.ok("R12.2", "closest_of[%d rows, 3 candidates]" % len(ps))
     except (KeyError, Unanalysable) as e:
         rep.bad("R12.2", "closest_of:anchor", str(e))
 
@@ -180,7 +191,9 @@ def interior_point(rep, F):
         rep.bad("R12.3", "anchor", str(e))
         return
     users = {"coords_iter": 0, "exterior_coords_iter": 0}
-    for g in [fn] + F.closures_of(fn):
+    from ..idioms import call_scope
+    sf, sc = call_scope(F, fn, "geo::algorithm::interior_point::", stop=("::interior_point",))
+    for g in sf + sc:
         for c in g.calls():
             if c.trait == "geo::algorithm::coords_iter::CoordsIter" and c.method in users and "Polygon" in (c.self_ty or ""):
                 users[c.method] += 1
@@ -192,7 +205,7 @@ def interior_point(rep, F):
         rep.bad("R12.3", "scanline-vertices:floor", "expected the vertex scan over all rings (coords_iter) twice, found %s" % users, where=fn.loc())
     # returned candidates are checked
     checked = False
-    for g in [fn] + F.closures_of(fn):
+    for g in sf + sc:
         for c in g.calls():
             if (c.path or "").endswith("IntersectionMatrix::is_intersects") or c.method == "intersects" or c.method == "relate":
                 checked = True
